@@ -8,6 +8,25 @@ from molli.storage.backends import UkvCollectionBackend
 
 doc = json.load(open(sys.argv[1]))
 w = doc["witness"]
+if w.get("op") == "rwlock":
+    from molli._aux.lock import rwlock
+    from pathlib import Path
+    d0 = tempfile.mkdtemp()
+    os.makedirs(os.path.join(d0, "real", "sub"))
+    os.symlink(os.path.join(d0, "real"), os.path.join(d0, "link"))
+    f = os.path.join(d0, "real", "lib.ukv")
+    open(f, "wb").close()
+    names = [f, os.path.join(d0, "link", "lib.ukv"), os.path.join(d0, "real", "sub", "..", "lib.ukv"), Path(f)]
+    cwd = os.getcwd()
+    os.chdir(os.path.join(d0, "real"))
+    names.append("lib.ukv")
+    locks = {str(n): str(rwlock(n)) for n in names}
+    os.chdir(cwd)
+    if len(set(locks.values())) != 1:
+        print("REPRODUCED: names of one file map to different lock files:", {k[-28:]: v[-14:] for k, v in locks.items()})
+        sys.exit(0)
+    print("not reproduced")
+    sys.exit(1)
 br = " ".join(w.get("branches") or [])
 d = tempfile.mkdtemp()
 p = os.path.join(d, "lib.ukv")
